@@ -84,12 +84,19 @@ def cases(tier, seed):
                     for sub in (("cas",), ("dsk",), ("cas", "dsk"), ("bin", "cas", "dsk")):
                         for pre in PRE_SETS:
                             yield {"size": size, "origin": origin, "nam": nam, "cliname": cn, "end": end, "out": list(sub), "pre": pre}
+    # targets that exist but hold no files (a 0-byte file, bytes that are no image, a blank disk): with --append the command may
+    # refuse them ("Unable to save ..."), but an output it does not refuse must be the image the switch names
+    for size in (1, 39):
+        for nam, cn in (("HELLO", None), (None, "cli")):
+            for sub in SUBSETS:
+                for pre in ("empty", "junk", "blankdsk"):
+                    yield {"size": size, "origin": 0x0E00, "nam": nam, "cliname": cn, "end": "none", "out": list(sub), "pre": pre}
 
 
 def check_case(case):
     lines = program(case["size"], case["origin"], case["nam"], case["end"])
     cell = "size={}|org={}|nam={}|cli={}|end={}|{}".format(
-        "{}{}".format(case["size"], "" if "pre" not in case else ".onto{}".format(len(case["pre"]))), "none" if case["origin"] is None else "{:04X}".format(case["origin"]),
+        "{}{}".format(case["size"], "" if "pre" not in case else ".onto{}".format(len(case["pre"]) if isinstance(case["pre"], list) else "." + case["pre"])), "none" if case["origin"] is None else "{:04X}".format(case["origin"]),
         "none" if case["nam"] is None else "{}{}".format(len(case["nam"]), "u" if case["nam"].isupper() else "l" if case["nam"].islower() else "m"),
         "none" if case["cliname"] is None else ("u" if case["cliname"].isupper() else "l"), case["end"], "+".join(case["out"]))
     res = {"nontrivial": True, "outcome": "ok"}
@@ -120,7 +127,13 @@ def check_case(case):
             f.write("".join(ln + "\n" for ln in lines))
         kw = {"to_" + o: "out." + o for o in case["out"]}
         npre = 0
-        if "pre" in case:
+        if "pre" in case and isinstance(case["pre"], str):
+            content = {"empty": b"", "junk": bytes((i * 37 + 11) & 0xFF for i in range(700)).replace(b"\x55\x3c", b"\x55\x3d"),
+                       "blankdsk": dskfs.write([])}[case["pre"]]
+            for o in case["out"]:
+                open("out." + o, "wb").write(content)
+            kw["append"] = True
+        elif "pre" in case:
             from . import c16
             for o in case["out"]:
                 if o != "bin":
@@ -131,10 +144,15 @@ def check_case(case):
         if status != 0:
             bad("command failed: {}".format(str(status).split()[0]), "exit 0", "{} {}".format(status, out[-100:]))
         got = {o: (open("out." + o, "rb").read() if os.path.exists("out." + o) else None) for o in ("bin", "cas", "dsk")}
+        refused = set()
+        if isinstance(case.get("pre"), str):
+            refused = {o for o, word in (("bin", "binary"), ("cas", "cassette"), ("dsk", "disk")) if "Unable to save {} file".format(word) in out}
         # the tool's own listing of what it wrote (what a user of file_util would see)
         tool = {}
         for o in ("cas", "dsk"):
-            if got[o] is not None and (o == "cas" or len(case["out"]) == 1):
+            if o in refused:
+                continue
+            if got[o] is not None and o in case["out"] and (o == "cas" or len(case["out"]) == 1):
                 try:
                     from cocoasm.virtualfiles.virtual_file import VirtualFile
                     from cocoasm.virtualfiles.source_file import SourceFile, SourceFileType
@@ -154,11 +172,13 @@ def check_case(case):
             bad("{}: the tool's own listing differs from the program".format(o), "{} ML file, {} bytes, load {:04X}".format(npre + 1, len(image), origin),
                 "{} file(s) {}".format(len(fs), [(len(f["data"]), f["load"], f["exec"]) for f in fs][:2]))
     for o in ("bin", "cas", "dsk"):
+        if o in refused:
+            continue            # a refused output is C10's matter (the target must be unchanged)
         if o not in case["out"]:
             if got[o] is not None:
                 bad("file written for a switch that was not given", "no out." + o, "exists")
             continue
-        if o == "bin" and "pre" in case:
+        if o == "bin" and isinstance(case.get("pre"), list):
             continue          # a raw binary is never appended to (C10)
         if o == "bin":
             if got[o] is None:
